@@ -593,6 +593,13 @@ class NumericLiteral(Expr):
                 raise ValueError(
                     'Illegal number (does not fit in SINGLE)')
 
+        if isinstance(value, float) and value in (
+                float('inf'), float('-inf')):
+            # 1E400, 1D999: the decimal text is beyond the type
+            raise ValueError(
+                f'Illegal number (does not fit in '
+                f'{literal_type.name.upper()})')
+
         return cls(value, literal_type)
 
 
